@@ -296,7 +296,7 @@ fn enum_seqs(alpha: &[u8], maxlen: usize, minlen: usize) -> Vec<Vec<u8>> {
 
 pub fn gen(tier: &str, rng: &mut Rng, out: &mut Vec<String>) {
     let thorough = tier == "thorough";
-    let (n, npat) = if thorough { (8_000, 20) } else { (2_400, 12) };
+    let (n, npat) = if thorough { (8_000, 20) } else { (5_000, 12) };
     let modes = ["b", "o", "a"];
     for i in 0..n {
         // every fourth text is long enough for several Occ checkpoints on each side of the k > 64 switch
